@@ -188,7 +188,7 @@ def run(run):
                         bad.append(ex)
                 key = "%s|scan-exits-only-on-hit" % fn["name"]
                 run.check("R5", key, not bad, "the scan over memory_segments is left (%s) outside a successful containment test: the result depends on the order of the segments (nothing sorts them; bare-metal images list flash before RAM)" % ", ".join(sorted({b["k"] for b in bad})), F.loc(node))
-        run.floor("segment scans", n, 3)
+        run.floor("segment scans", n, 1)
 
     run.guarded("R5", r5)
 
